@@ -91,7 +91,7 @@ class KeyedBase:
         if not isinstance(instance, cls):
             return False
 
-        if hasattr(type_, "__args__"):
+        if len(getattr(type_, "__args__", ())) == 2:
             item_type, key_type = type_.__args__
 
             for (
@@ -162,9 +162,12 @@ class KeyedList(Generic[ItemType, KeyType], MutableSequence, KeyedBase):  # pyli
                     f"Item with key `{repr(key)}` already in `{type_label(self._type)}`."
                 )
             self._list[index_or_key] = item
-            del self._dict[old_key]
-            self._dict[key] = item
-            self._sync_key_order()
+            if key == old_key and type(key) is type(old_key):
+                self._dict[key] = item  # keeps its position in the key index
+            else:
+                del self._dict[old_key]
+                self._dict[key] = item
+                self._sync_key_order()
             return
 
         index = self.index_for_key(index_or_key)
@@ -201,8 +204,10 @@ class KeyedList(Generic[ItemType, KeyType], MutableSequence, KeyedBase):  # pyli
     def _sync_key_order(self):
         # `keys()` and `items()` are (ordered) views of the key index: keep it
         # in list order whenever an operation changes positions.
+        # (in place: views handed out earlier stay attached)
         keys = {id(item): key for key, item in self._dict.items()}
-        self._dict = {keys[id(item)]: item for item in self._list}
+        self._dict.clear()
+        self._dict.update((keys[id(item)], item) for item in self._list)
 
     def reverse(self):
         # The `MutableSequence` mixin swaps items pairwise through
@@ -341,15 +346,12 @@ class KeyedSet(Generic[ItemType, KeyType], MutableSet, KeyedBase):  # pylint: di
         # Check whether item_or_key exists as a value
         try:
             key = self.key(item_or_key)
-            if key in self._dict:
-                return (
-                    not self.enforce_item_equivalence
-                    or self.enforce_item_equivalence
-                    and item_or_key == self._dict[key]
-                )
+            present = key in self._dict
         except self._NOT_AN_ITEM:
-            pass
-        return False
+            return False
+        return present and (
+            not self.enforce_item_equivalence or item_or_key == self._dict[key]
+        )
 
     def __iter__(self):
         return iter(self._dict.values())
@@ -380,14 +382,13 @@ class KeyedSet(Generic[ItemType, KeyType], MutableSet, KeyedBase):  # pylint: di
         # Attempt to discard value as a value
         try:
             key = self.key(value)
-            if key in self._dict and (
-                not self.enforce_item_equivalence
-                or self.enforce_item_equivalence
-                and value == self._dict[key]
-            ):
-                del self._dict[key]
+            present = key in self._dict
         except self._NOT_AN_ITEM:
-            pass
+            return
+        if present and (
+            not self.enforce_item_equivalence or value == self._dict[key]
+        ):
+            del self._dict[key]
 
     def _from_iterable(self, iterable):
         # Used by the `Set` mixins to build the results of `|`, `&`, `-` and
@@ -436,8 +437,9 @@ class KeyedSet(Generic[ItemType, KeyType], MutableSet, KeyedBase):  # pylint: di
             pass
         try:
             item_key = self.key(key)
-            if item_key in self._dict:
-                return self._dict[item_key]
+            present = item_key in self._dict
         except self._NOT_AN_ITEM:
-            pass
+            present = False
+        if present:
+            return self._dict[item_key]
         raise KeyError(key)
